@@ -348,39 +348,48 @@ impl ContextBuilder {
             common_crate_name,
             names: Default::default(),
         };
-        let mut map: FxHashMap<(Vec<DefId>, String), Vec<DefId>> = FxHashMap::default();
-        cx.nodes()
-            .iter()
-            .for_each(|(def_id, node)| match node.kind {
-                NodeKind::Item(_) => {
-                    if let Mode::Workspace(_) = &*cx.mode {
-                        if !cx.location_map.contains_key(def_id) {
-                            return;
+        // Names that collide after case conversion keep their spelling. A name kept that way can
+        // in turn equal the converted form of a third one (`id`, `ID`, `i_d`: the first two keep
+        // theirs, `i_d` converts to `ID`), so this is repeated until nothing collides any more.
+        loop {
+            let mut map: FxHashMap<(Vec<DefId>, String), Vec<DefId>> = FxHashMap::default();
+            cx.nodes()
+                .iter()
+                .for_each(|(def_id, node)| match node.kind {
+                    NodeKind::Item(_) => {
+                        if let Mode::Workspace(_) = &*cx.mode {
+                            if !cx.location_map.contains_key(def_id) {
+                                return;
+                            }
                         }
+                        let rust_name = cx.item_path(*def_id).join("::");
+                        map.entry((vec![], rust_name)).or_default().push(*def_id);
                     }
-                    let rust_name = cx.item_path(*def_id).join("::");
-                    map.entry((vec![], rust_name)).or_default().push(*def_id);
-                }
-                _ => {
-                    let mut item_def_ids = vec![];
-                    let mut item_def_id = *def_id;
-                    while !matches!(cx.node(item_def_id).unwrap().kind, NodeKind::Item(_)) {
-                        item_def_id = cx.node(item_def_id).unwrap().parent.unwrap();
-                        item_def_ids.push(item_def_id);
+                    _ => {
+                        let mut item_def_ids = vec![];
+                        let mut item_def_id = *def_id;
+                        while !matches!(cx.node(item_def_id).unwrap().kind, NodeKind::Item(_)) {
+                            item_def_id = cx.node(item_def_id).unwrap().parent.unwrap();
+                            item_def_ids.push(item_def_id);
+                        }
+                        let rust_name = cx.rust_name(*def_id).to_string();
+                        map.entry((item_def_ids, rust_name))
+                            .or_default()
+                            .push(*def_id);
                     }
-                    let rust_name = cx.rust_name(*def_id).to_string();
-                    map.entry((item_def_ids, rust_name))
-                        .or_default()
-                        .push(*def_id);
-                }
-            });
-        cx.names.extend(
-            map.into_iter()
+                });
+            let colliding = map
+                .into_iter()
                 .filter(|(_, v)| v.len() > 1)
                 .map(|(_, v)| v)
                 .flat_map(|v| v.into_iter().enumerate().map(|(i, def_id)| (def_id, i)))
-                .collect::<HashMap<DefId, usize>>(),
-        );
+                .filter(|(def_id, _)| !cx.names.contains_key(def_id))
+                .collect::<HashMap<DefId, usize>>();
+            if colliding.is_empty() {
+                break;
+            }
+            cx.names.extend(colliding);
+        }
         cx
     }
 }
